@@ -489,8 +489,8 @@ func (m *Model) prelude() string {
 (declare-const opaque0 Opaque)
 (declare-datatypes ((Addr 0)) (((Nil) (Base (base_id Int)) (Fld (fld_p Addr) (fld_i Int)) (Elem (elem_a Addr) (elem_i Int)) (Glob (glob_id Int)))))
 (declare-datatypes ((Slice 0)) (((mk_slice (sl_base Addr) (sl_off Int) (sl_len Int) (sl_cap Int)))))
-(declare-fun selem (Slice Int) Addr)
-(assert (forall ((s Slice) (k Int)) (! (= (selem s k) (Elem (sl_base s) (+ (sl_off s) k))) :pattern ((selem s k)))))
+(declare-fun selem (Addr Int Int) Addr)
+(assert (forall ((b Addr) (o Int) (k Int)) (! (= (selem b o k) (Elem b (+ o k))) :pattern ((selem b o k)))))
 (declare-datatypes ((Fn 0)) (((FNil) (FStatic (fs_id Int)) (FClos (fc_id Int) (fc_env Int)))))
 (define-fun fzero () F64 (_ +zero 11 53))
 (declare-fun slen (Str) Int)
@@ -568,6 +568,13 @@ func (m *Model) fullPrelude() string {
 		fmt.Fprintf(&sb, "(assert (forall ((x %s)) (! (= (unbox%s (box%s x)) x) :pattern ((box%s x)))))\n", s, s[1:], s[1:], s[1:])
 	}
 	return sb.String()
+}
+
+// selemT: address of element k of slice term s.  An uninterpreted function of (base, offset, index)
+// (axiomatised as Elem(base, offset+index)) so that quantifier patterns over slice elements match
+// modulo equal bases/offsets and are not destroyed by arithmetic normalisation.
+func selemT(s, k string) string {
+	return fmt.Sprintf("(selem (sl_base %s) (sl_off %s) %s)", s, s, k)
 }
 
 // ---------------------------------------------------------------- constants
